@@ -17,6 +17,7 @@ import (
 	"testing"
 
 	sdkmath "cosmossdk.io/math"
+	abci "github.com/cometbft/cometbft/abci/types"
 	sdk "github.com/cosmos/cosmos-sdk/types"
 	authtypes "github.com/cosmos/cosmos-sdk/x/auth/types"
 	banktypes "github.com/cosmos/cosmos-sdk/x/bank/types"
@@ -26,6 +27,7 @@ import (
 	levtypes "github.com/elys-network/elys/x/leveragelp/types"
 	perptypes "github.com/elys-network/elys/x/perpetual/types"
 	sstypes "github.com/elys-network/elys/x/stablestake/types"
+	tstypes "github.com/elys-network/elys/x/tradeshield/types"
 )
 
 type lOp struct {
@@ -681,6 +683,36 @@ func (x *lRun) exec(op lOp) (res TxResult, amt *big.Int) {
 		}
 		v := x.amtOf(op, coll)
 		amt = v.BigInt()
+		if op.Rel == 3 {
+			// the same open THROUGH TRADESHIELD: a limit-open order whose trigger is already met, executed at once by another
+			// account (perpetual Open is then called by the tradeshield keeper, with ITS handle on the perpetual keeper)
+			f, tpos := "1.02", tstypes.PerpetualPosition_LONG
+			if pos == perptypes.Position_SHORT {
+				f, tpos = "0.98", tstypes.PerpetualPosition_SHORT
+			}
+			r1 := w.Deliver(&tstypes.MsgCreatePerpetualOpenOrder{OwnerAddress: u, TriggerPrice: tstypes.TriggerPrice{TradingAssetDenom: trade, Rate: m.Prices[trade].Mul(dec(f))},
+				Collateral: sdk.NewCoin(coll, v), TradingAsset: trade, Position: tpos, Leverage: dec(op.Lev), TakeProfitPrice: tpd, StopLossPrice: dec(sl), PoolId: x.oraclePool(q)})
+			if !r1.OK() {
+				return r1, amt
+			}
+			var id uint64
+			for _, o := range w.App.TradeshieldKeeper.GetAllPendingPerpetualOrder(w.QCtx()) {
+				if o.OwnerAddress == u && o.OrderId > id {
+					id = o.OrderId
+				}
+			}
+			r2 := w.Deliver(&tstypes.MsgExecuteOrders{Creator: m.User(op.U + 1), PerpetualOrderIds: []uint64{id}})
+			evs := append(append([]abci.Event{}, r1.Events...), r2.Events...)
+			// an order that could not be executed is cancelled again so that no escrow is left behind
+			for _, o := range w.App.TradeshieldKeeper.GetAllPendingPerpetualOrder(w.QCtx()) {
+				if o.OwnerAddress == u && o.OrderId == id {
+					r3 := w.Deliver(&tstypes.MsgCancelPerpetualOrder{OwnerAddress: u, OrderId: id})
+					evs = append(evs, r3.Events...)
+				}
+			}
+			r2.Events = evs
+			return r2, amt
+		}
 		return w.Deliver(&perptypes.MsgOpen{Creator: u, Position: pos, Leverage: dec(op.Lev), TradingAsset: trade, Collateral: sdk.NewCoin(coll, v),
 			TakeProfitPrice: tpd, StopLossPrice: dec(sl), PoolId: x.oraclePool(q)}), amt
 	case "perp_close":
